@@ -17,6 +17,7 @@ R  every root index 1..p-1 of every prime length p = 23..1193 (the base lengths
    the numerology can ask for, passed explicitly as Nzc so that the sweep does
    not depend on the prime table): amplitude, autocorrelation and spectrum
    (FFT based here; the four roots of Z are also checked by direct sums).
+   Quick tier: every root for p <= 500, every 8th root (+ the four) above.
 X  cyclic extension with explicit Nzc: sizes Nzc+{0,1,Nzc-1,Nzc,Nzc+1,Nzc+3,
    2Nzc,2Nzc+5} and get_extended_ZF on position-distinguishable arrays of
    lengths 1..6 x every size n..4n+1.
@@ -459,7 +460,7 @@ def eval_shift(chk, case):
         for i in range(len(g)):
             for j in range(len(g)):
                 if i != j:
-                    chk.nontriv(("shift", kind, size, u, norm, labels[g[i]], labels[g[j]]))
+                    chk.nontriv(((((size * 2048 + u) * 2 + int(norm)) * 2 + (kind == "srs")) * 64 + g[i]) * 64 + g[j])
         E = np.abs(G - want)
         if not np.all(np.isfinite(E)) or E.max() > tol * diag:
             i, j = np.unravel_index(int(np.argmax(np.where(np.isfinite(E), E, np.inf))), E.shape)
@@ -549,17 +550,18 @@ def diagnose(est, H, taps, K, nbins):
     """name the way a wrong estimate is wrong (signature component only)"""
     if shape_of(est) != shape_of(H) or not np.all(np.isfinite(est)):
         return "other"
+    big = max(1.0, float(np.max(np.abs(H))))
+    if taps.shape[1] > K >= 1:
+        Ht = true_response(taps[:, :K], nbins).reshape(H.shape)
+        if np.max(np.abs(est - Ht)) <= 1e-8 * big:
+            return "last_kept_tap_dropped"
+    if K == 0 and np.max(np.abs(est)) <= 1e-8 * big:
+        return "last_kept_tap_dropped"
     den = np.vdot(H, H)
     if abs(den) > 0:
         a = np.vdot(H, est) / den
-        if abs(a - 1) > 1e-6 and np.max(np.abs(est - a * H)) <= 1e-8 * max(1.0, np.max(np.abs(H))):
+        if abs(a - 1) > 1e-6 and np.max(np.abs(est - a * H)) <= 1e-8 * big:
             return "scaled_by_constant"
-    if taps.shape[1] > K >= 1:
-        Ht = true_response(taps[:, :K], nbins).reshape(H.shape)
-        if np.max(np.abs(est - Ht)) <= 1e-8 * max(1.0, np.max(np.abs(H))):
-            return "last_kept_tap_dropped"
-    if K == 0 and np.max(np.abs(est)) <= 1e-8:
-        return "last_kept_tap_dropped"
     return "other"
 
 
@@ -622,7 +624,13 @@ def eval_est(chk, case, cache):
 
     chk.outcome("estimator_form", (kind, rx, len(interf)))
     if L >= 2 or interf:
-        chk.nontriv(("est", N, kind, norm, shift, L, K, rx, len(interf), interf[0][0] if interf else -1))
+        # packed integer key (compact to ship between processes): every component of the parameter tuple
+        ik = (len(interf) * 16 + (interf[0][0] if interf else 15)) * 2 + (1 if interf and interf[0][2] == "other" else 0)
+        key = N
+        for v, base in ((EST_KINDS.index(kind), 16), (int(norm), 2), (shift, 16), (L, 64), (K, 512),
+                        (0 if rx == "1d" else int(rx), 8), (ik, 256), (root, 2048)):
+            key = key * base + v
+        chk.nontriv(-key)        # negative: disjoint from the (positive) keys of part S
     if not np.array_equal(obs, obs_copy):
         chk.fail(("cazac_estimator", variant, "input_mutated"), case)
     if shape_of(est) != shape_of(want):
@@ -747,7 +755,7 @@ def eval_ls(chk, case):
     chk.count("eval_ls_cases")
     chk.outcome("ls_form", (form, Nt, Np, case["pfam"]))
     if Nt >= 2 or Np >= 2:
-        chk.nontriv(("ls", form, Nt, Np, Nr, case["pfam"], case["pidx"]))
+        chk.nontriv(("ls", form[:4] + case["pfam"][-4:], ((Nt * 8 + Np) * 8 + Nr) * 2 ** 20 + case["pidx"]))
     pk = "real_pilots" if case["pfam"] == "generic_real" else "complex_pilots"
     if not (np.array_equal(Y, Yc) and np.array_equal(s, sc)):
         chk.fail(("ls_estimation", form, "input_mutated"), case)
@@ -822,7 +830,13 @@ def all_units(tier):
                 if kind == "array_comb" and norm:
                     continue
                 for shift in range(D):
-                    for which in (("seed", "one", "last") if thorough else ("seed",)):
+                    if not thorough or N > 192:
+                        whichs = ("seed",)
+                    elif N > 96:
+                        whichs = ("seed", "last")
+                    else:
+                        whichs = ("seed", "one", "last")
+                    for which in whichs:
                         es.append(("est", N, kind, norm, shift, est_root(N, which)))
     # L
     small_limit = 9 if thorough else 6
@@ -837,9 +851,10 @@ def all_units(tier):
             S = 200 if thorough else 40
             ls.append(("ls", "generic", shape, form, 0, S))
             ls.append(("ls", "generic_real", shape, form, 0, S // 2))
-    # most expensive first, so that round-robin sharding balances the load
-    es.sort(key=lambda u: -u[1])
-    return es + rr[::-1] + zc[::-1] + ls + sh[::-1] + ex[::-1]
+    # simplest first inside every kind (the first stored counterexample of a signature is then a small one);
+    # cost-sorted lists also balance under round-robin sharding
+    es.sort(key=lambda u: u[1])
+    return ex + sh + ls + zc + rr + es
 
 
 def run_unit(chk, unit, tools, cache):
@@ -1001,8 +1016,7 @@ def replay(case, chk: Check):
             eval_shift(chk, c)
     elif part == "E":
         c = dict(case)
-        c["interf"] = [tuple(t) for t in case["interf"]]
-        c["interf"] = [list(t) for t in c["interf"]]
+        c["interf"] = [list(t) for t in case["interf"]]
         variant = kind_info(c["kind"])[5]
         with chk.guard(("cazac_estimator", variant), c):
             eval_est(chk, c, cache)
